@@ -2,9 +2,10 @@
 from __future__ import annotations
 
 import itertools
+import re
 import math
 import os
-import signal
+from vlib.timeouts import TimeLimit, time_limit
 import subprocess
 import sys
 import tempfile
@@ -81,14 +82,10 @@ def judge(ctx, text: str, case, full: bool = True) -> str:
     from pyimpspec.circuit.base import Connection
     from pyimpspec.exceptions import ImpedanceError, ParsingError, TokenizingError
 
-    signal.signal(signal.SIGALRM, _alarm)
-    signal.setitimer(signal.ITIMER_REAL, 20.0)
     try:
-        try:
+        with time_limit(20.0):
             circuit = parse_cdc(text)
-        finally:
-            signal.setitimer(signal.ITIMER_REAL, 0)
-    except _Timeout:
+    except TimeLimit:
         ctx.inconclusive["parse-timeout-20s"] += 1
         return "timeout"
     except ParsingError as e:
@@ -196,6 +193,9 @@ def atom_body(ctx, s):
 
 # ---------------------------------------------------------------------------- (b) grammar mutations
 SPECIAL = "[](){}=/%,:!-. \t\nRCfFe1023456789"
+_NUM = re.compile(r"-?\d+(?:\.\d*)?(?:[eE][-+]?\d+)?")
+EXTREME_NUMBERS = ["0", "-0", "1e999", "-1e999", "1e-999", "1.7976931348623157e308", "5e-324", "1e309", "00012", "9" * 330, "1." + "3" * 60,
+                   "1e0000000000000000001", "2", "0.5", "-3", "1E+400", "1e"]
 
 
 @st.composite
@@ -244,6 +244,14 @@ def mutation_body(ctx, case):
         m = _apply(base, kind, i % len(base), ch)
         muts.append(m)
         muts.append(_apply(m, "sub", j % max(len(m), 1), ch2))  # double mutation
+    # every number literal of the code (header version, values, limits, percentages) replaced by extreme literals
+    nums = list(_NUM.finditer(base))
+    stride = max(1, len(nums) // ctx.q(12, 40))
+    for k, mt in enumerate(nums):
+        if k % stride:
+            continue
+        for lit in EXTREME_NUMBERS:
+            muts.append(base[: mt.start()] + lit + base[mt.end():])
     seen = set()
     for m in muts:
         if m in seen:
